@@ -41,6 +41,12 @@ def charge_map(prog, ev=None):
         f, loop, guards = charge_pattern_loop(prog)
     except Undecided:
         return _charge_map_direct(prog, ev)
+    try:
+        # the whole derive-branch (whatever it contains besides the loop) when it evaluates as a block
+        cm, f2, g = _charge_map_direct(prog, Evaluator(prog))
+        return cm, f2, (loop if [n for n in g.body if n is loop] and len(g.body) <= 2 else g)
+    except Undecided:
+        pass
     env = {"self": ObjV("Sequence"), "chargePattern": ListAcc([]), "seq": SeqV("seq")}
     fr = _Frame(f, 0)
     res = ev.exec_for(loop, Path([], "live", None, env), fr)
@@ -73,6 +79,11 @@ def _charge_map_direct(prog, ev):
     fr = _Frame(f, 0)
     res = ev.exec_block(g.body, [Path([], "live", None, env)], fr)
     live = [p for p in res if p.kind == "live"]
+    if len(live) != 1:
+        # a guard on the empty sequence (`if self.len > 0:`) splits the branch; the map is what is built for N >= 1
+        from .dt import feasible_with
+        from .lin import Lin
+        live = [p for p in live if feasible_with(p.conds, [Lin({"N": -1}, 1, "<=")], {"N"}, int_atoms={"N"}) is not None]
     if len(live) != 1:
         raise Undecided("the branch that derives the charge pattern does not complete on exactly one path", f.loc(g))
     v = live[0].env.get("@self.chargePattern")
